@@ -7,6 +7,7 @@ import (
 	"io"
 	"strings"
 
+	"verif/harness/corpus"
 	"verif/harness/fw"
 	"verif/harness/gen"
 )
@@ -284,7 +285,21 @@ func hostilePhases(which string) []*fw.Phase {
 			return agg
 		},
 	}
-	return []*fw.Phase{singles, pairs, triples, coopTriples, coopRandom, random, links, faults}
+	// entry sequences kept by the coverage-guided FuzzUnpack campaigns,
+	// replayed in every arena under the full snapshot / resolver oracles
+	kept := corpus.UnpackInputs()
+	distilled := &fw.Phase{
+		Name: "fuzz-distilled-sequences", Chroot: true, Exhaustive: true,
+		N: func(string) int { return len(kept) * nv },
+		Run: func(env *fw.Env, idx int) fw.Result {
+			es := gen.DecodeFuzzEntries([]byte(kept[idx/nv]))
+			if len(es) == 0 {
+				return fw.Result{Class: "empty-sequence"}
+			}
+			return runHostile(which, hostileCase{Arena: arenaVariants[idx%nv], Entries: es})
+		},
+	}
+	return []*fw.Phase{singles, pairs, triples, coopTriples, coopRandom, random, links, distilled, faults}
 }
 
 func init() {
